@@ -61,6 +61,7 @@ class Ref:
         self.counts = {'C01': 0, 'C02': 0, 'C03': 0, 'C07': 0, 'C10': 0}
         self.trace = []
         self.prefix = ''       # e.g. 'C11.' when the run belongs to another property's check
+        self.evals = {}        # rule evaluations including those that are trivially true (concrete values)
 
     # -- helpers -----------------------------------------------------------
     def on(self, r):
@@ -69,6 +70,7 @@ class Ref:
     def check(self, prop, cond, rule, msg, extra=None):
         if prop not in self.rules:
             return True
+        self.evals[prop] = self.evals.get(prop, 0) + 1
         if cond is True:
             return True
         self.counts[prop] += 1
@@ -276,6 +278,7 @@ class Ref:
                     if v is not None:
                         got[(eid, attr, src)] = v
         self.counts['C03'] += 1
+        self.evals['C03'] = self.evals.get('C03', 0) + 1
         if exp != got:
             bad = sorted(set(k for k in set(exp) | set(got) if exp.get(k) != got.get(k)))
             ckinds = sorted({self.kind(c) for c in self.conns if c.ds == sid and (c.de, c.da, f"{c.ss}.{c.se}") in bad})
